@@ -15,6 +15,89 @@ OPS = ['connect', 'disconnect', 'subscribe', 'unsubscribe', 'publish', 'ping',
        'handleCONNACK', 'handlePINGRESP', 'handleSUBACK', 'handleUNSUBACK', 'handlePUBLISH',
        'handlePUBACK', 'handlePUBREC', 'handlePUBREL', 'handlePUBCOMP']
 
+import ast
+
+CONT = {'queuePublishTx', 'windowPublish', 'windowPubRelease', 'windowSubscribe', 'windowUnsubscribe', 'windowPubRx'}
+
+def parents(tree):
+    par = {}
+    for n in ast.walk(tree):
+        for c in ast.iter_child_nodes(n):
+            par[c] = n
+    return par
+
+def is_self_attr(n, name):
+    return isinstance(n, ast.Attribute) and n.attr == name and isinstance(n.value, ast.Name) and n.value.id == 'self'
+
+def addr_keyed(src_dir):
+    """every use of one of the factory's six per-address dictionaries in the protocol classes is `self.factory.<dict>[self.addr]`;
+    in the factory itself: created in __init__, indexed by the address argument in buildProtocol, scanned over all addresses only by _idInUse"""
+    bad = []
+    n_ok = 0
+    for fn in ('pubsubs.py', 'base.py', 'publisher.py', 'subscriber.py'):
+        try:
+            src = open(os.path.join(src_dir, 'mqtt', 'client', fn)).read()
+        except IOError:
+            continue
+        tree = ast.parse(src)
+        par = parents(tree)
+        # local names bound to self.addr by a plain assignment (`cnx = self.addr`), per function
+        alias = {}
+        for f in ast.walk(tree):
+            if isinstance(f, ast.FunctionDef):
+                names = set()
+                for a in ast.walk(f):
+                    if isinstance(a, ast.Assign) and len(a.targets) == 1 and isinstance(a.targets[0], ast.Name) and is_self_attr(a.value, 'addr'):
+                        names.add(a.targets[0].id)
+                # a name assigned anything else anywhere in the function is not an alias
+                for a in ast.walk(f):
+                    if isinstance(a, ast.Assign) and not is_self_attr(a.value, 'addr'):
+                        for t in a.targets:
+                            for x in ([t] if isinstance(t, ast.Name) else list(t.elts) if isinstance(t, (ast.Tuple, ast.List)) else []):
+                                if isinstance(x, ast.Name):
+                                    names.discard(x.id)
+                for n in ast.walk(f):
+                    alias[n] = names
+        def key_ok(node, sl):
+            return is_self_attr(sl, 'addr') or (isinstance(sl, ast.Name) and sl.id in alias.get(node, ()))
+        for n in ast.walk(tree):
+            if isinstance(n, ast.Attribute) and n.attr in CONT:
+                p = par.get(n)
+                ok = is_self_attr(n.value, 'factory') and isinstance(p, ast.Subscript) and p.value is n and key_ok(n, p.slice)
+                if ok:
+                    n_ok += 1
+                else:
+                    bad.append('%s:%d' % (fn, n.lineno))
+    src = open(os.path.join(src_dir, 'mqtt', 'client', 'factory.py')).read()
+    tree = ast.parse(src)
+    par = parents(tree)
+    func_of = {}
+    for f in ast.walk(tree):
+        if isinstance(f, ast.FunctionDef):
+            for n in ast.walk(f):
+                func_of[n] = f.name
+    for n in ast.walk(tree):
+        if isinstance(n, ast.Attribute) and n.attr in CONT:
+            fname = func_of.get(n)
+            p = par.get(n)
+            if fname == '__init__':
+                ok = is_self_attr(n, n.attr) and isinstance(p, ast.Assign)
+            elif fname == 'buildProtocol':
+                ok = isinstance(p, ast.Subscript) and p.value is n and isinstance(p.slice, ast.Name) and p.slice.id == 'addr'
+                if not ok and isinstance(p, ast.Attribute) and p.attr == 'get':
+                    c = par.get(p)
+                    ok = isinstance(c, ast.Call) and c.func is p and c.args and isinstance(c.args[0], ast.Name) and c.args[0].id == 'addr'
+            elif fname == '_idInUse':
+                ok = True
+            else:
+                ok = False
+            if ok:
+                n_ok += 1
+            else:
+                bad.append('factory.py:%d' % n.lineno)
+    return n_ok, bad
+
+
 def source_digest():
     h = hashlib.sha256()
     files = []
@@ -69,6 +152,8 @@ def extract():
             rows.append(row)
         table.append(rows)
     cfg['dispatch'] = table
+    n_ok, bad = addr_keyed(REPO_SRC)
+    cfg['addrKeyedAccesses'], cfg['addrUnkeyedAccesses'], cfg['addrUnkeyedAt'] = n_ok, len(bad), bad
     cfg['profiles'] = [int(MQTTFactory.SUBSCRIBER), int(MQTTFactory.PUBLISHER),
                        int(MQTTFactory.SUBSCRIBER | MQTTFactory.PUBLISHER)]
     return cfg
@@ -110,6 +195,12 @@ def render(cfg):
             L.append('    [%s]%s' % (', '.join(lean_bool(b) for b in row), ',' if ri < 2 else ''))
         L.append('  ]%s' % (',' if pi < 2 else ''))
     L.append(']')
+    L.append('')
+    L.append('/-- uses of the factory\'s six per-address dictionaries in the client\'s source (AST scan): those of the form')
+    L.append('    `self.factory.<dict>[self.addr]` (or through a local alias of `self.addr`; in the factory: created in `__init__`, indexed by the')
+    L.append('    address argument in `buildProtocol`, scanned over all addresses only in `_idInUse`), and the others%s -/' % (' (at ' + ', '.join(cfg['addrUnkeyedAt'][:8]) + ')' if cfg['addrUnkeyedAt'] else ''))
+    L.append('def addrKeyedAccesses : Nat := %d' % cfg['addrKeyedAccesses'])
+    L.append('def addrUnkeyedAccesses : Nat := %d' % cfg['addrUnkeyedAccesses'])
     L.append('')
     L.append('end Mqtt.Config')
     return '\n'.join(L) + '\n'
